@@ -431,6 +431,53 @@ func checkC15(ctx *core.Ctx, rep *core.Report) {
 			}
 		}
 	}
+	// ---- every source the registry lists, as -includeSources and as -excludeSources, against the library ----------
+	{
+		tmplDER := tlsLeafSpec(date(2024, 3, 1), date(2024, 9, 1)).Build()
+		tp := write("sources_probe.pem", pem.EncodeToMemory(&pem.Block{Type: "CERTIFICATE", Bytes: tmplDER}))
+		if o, err := zl.Parse(seeds.Cert, tmplDER); err == nil {
+			for _, src := range lint.GlobalRegistry().Sources() {
+				for _, flag := range []string{"-includeSources", "-excludeSources"} {
+					idx++
+					if !ctx.Mine(idx) {
+						continue
+					}
+					fo := lint.FilterOptions{IncludeSources: lint.SourceList{src}}
+					if flag == "-excludeSources" {
+						fo = lint.FilterOptions{ExcludeSources: lint.SourceList{src}}
+					}
+					want, err := c15Expect(o, fo, "")
+					if err != nil {
+						continue // the library itself refuses: C13's business
+					}
+					r := cliRun{args: []string{flag, string(src), tp}}
+					out, code, err := r.exec()
+					rep.Inc("states")
+					rep.Inc("transitions")
+					rep.Inc("cli_runs")
+					rep.Inc("source_selection_runs")
+					if err != nil {
+						rep.InternalError("exec: %v", err)
+						continue
+					}
+					rep.Inc("validated")
+					if code != 0 {
+						v("exit_nonzero_on_good_input", fmt.Sprintf("exit %d for a parseable certificate with %s %s, a selection the library accepts", code, flag, src), r, nil)
+						continue
+					}
+					var got map[string]*lint.LintResult
+					if err := json.NewDecoder(bytes.NewReader(out)).Decode(&got); err != nil {
+						v("stdout_not_json", "stdout does not decode: "+err.Error(), r, nil)
+						continue
+					}
+					if d := compareResults(want, got); d != "" {
+						v("results_differ", d+fmt.Sprintf(" (%s %s)", flag, src), r, nil)
+					}
+				}
+			}
+		}
+	}
+
 	// ---- file-sequence product: every sequence of ≤ 3 files over the file shapes (content encoding ×
 	// telling / non-telling suffix) × every -format value. Each file is judged by its own suffix, else
 	// by -format; nothing carries over from one file to the next. The run prints one object per
